@@ -99,6 +99,11 @@ CHECKS = {
          "Held on the executions observed: generated existing configs (section subsets, hyphen/underscore, block/flow style, comments, banner look-alikes, CRLF, no final newline, document markers) x three init-config runs with presets; four preset files x 20 commands; set/get/reset histories with valid, invalid and YAML-special values over cfg.yaml and cfg.json; evidence counts merge runs, in-effect checks, accepted/rejected sets and get checks.",
          "Trusted: yaml.safe_load / json.loads as independent parsers; Python literal syntax as the documented int/float conversion; validated keys as in src/config.py.",
          "DESIGN.md section 4 C20"),
+
+ "C19": ("runtime monitoring: boundary trace of the documented command (Linter.lint for cqs) on every labelled code block re-extracted from docs/*-linter.md at run time, as is and under embeddings (unrelated code before/after, inside a function / an if block, repeated with renamed definitions); conformance + relational oracle",
+         "Held on the executions observed: all fenced python/typescript/javascript/rust blocks with a violating ('Code with violation(s)', 'Detects', 'Before' outside refactoring sections) or acceptable ('Refactored code', 'After', 'EAFP alternative', 'Fixed code') label, with the configuration the doc attaches to them; pattern-linter examples under 6 embeddings; evidence counts blocks total/judged/skipped and embeddings checked.",
+         "Trusted: the label classification (vlib/gen/docs.py) and the hand-reviewed exceptions in corpus/overrides.json; 'Before' blocks of refactoring sections and elided code are only used relationally; embeddings that do not parse are discarded.",
+         "DESIGN.md section 4 C19"),
 }
 PENDING = {}
 props = [json.loads(l) for l in open(os.path.join(HERE, "properties.jsonl"))]
